@@ -179,6 +179,10 @@ impl<S: Sample> FrameRenderHandle<S> {
         if matches!(*render_ref, FrameRender::Done(_) | FrameRender::Blended(_)) {
             crate::verif::probe_event(self.frame.idx, crate::verif::ProbeKind::ResetFinished);
         }
+        #[cfg(jxl_oxide_verif)]
+        if matches!(*render_ref, FrameRender::Rendering) {
+            crate::verif::probe_event(self.frame.idx, crate::verif::ProbeKind::ResetRendering);
+        }
         std::mem::replace(&mut *render_ref, FrameRender::None)
     }
 
